@@ -677,6 +677,9 @@ fn sfn_slot(name: &[u8; 11], attr: u8, nt: u8, cluster: u32, size: u32, stamps: 
     b[18..20].copy_from_slice(&stamps[2].to_le_bytes());
     if fat == 32 {
         b[20..22].copy_from_slice(&((cluster >> 16) as u16).to_le_bytes());
+    } else if stamps[3] % 3 == 0 && name[0] != b'.' {
+        // FAT12/16: not part of the cluster number; other systems keep an extended-attribute handle here
+        b[20..22].copy_from_slice(&(stamps[4] | 1).to_le_bytes());
     }
     b[22..24].copy_from_slice(&stamps[3].to_le_bytes());
     b[24..26].copy_from_slice(&stamps[4].to_le_bytes());
